@@ -257,6 +257,10 @@ def fam_wrappers():
                 out.append("init %s %s ~|> next" % (opens, inner))                        # implicit at step end
                 if depth > 1:
                     out.append("init %s %s <<< |> mid" % (opens, inner))                  # partial close
+            # a deferred wrapper starts a new step: wrappers still open close at the step end, before it
+            out.append("init %s |> a ~%s >>> |> b" % (opens, w[0]))
+            out.append("init %s |> a ~%s >>> |> b <<< |> c, second ~|> d" % (opens, w[0]))
+            out.append("init ~%s >>> ..x() <<< ~%s >>> { blk }" % (w[0], w[0]))
     return out
 
 
